@@ -357,8 +357,9 @@ Proof.
       as [[[[res st1] t1] s1] tr1].
     destruct res as [[[r sd]|]|e r]; try reflexivity.
     destruct (_ && _); [reflexivity|].
-    unfold algo_run. cbn [algo algo_prm with_switches].
+    unfold algo_run, algo_fails. cbn [algo algo_prm with_switches].
     destruct (if (algo cfg =? 1) || (algo cfg =? 6) then _ else _) as [key e].
+    destruct (algo cfg =? 7); [reflexivity|].
     rewrite (single_request_switches cfg a b c st1 _ _ (sa_interpret true level) _ no_post) by reflexivity. reflexivity.
   - unfold communication_control. destruct (ct_normalize a0); [reflexivity|].
     apply single_request_switches; reflexivity.
